@@ -141,9 +141,6 @@ func (p *c03Prop) Run(in string, scratch string) Result {
 				after := c03Snapshot(env)
 				if d := before.diff(after); d != "" {
 					kf := ""
-					if d == "published-part-files" && c03DupContent(f[2:], g) {
-						kf = c03ResidueKf(kind, before, after)
-					}
 					detail := c03FirstDiff(before.api+"\n"+before.tables+"\n"+before.published+"\n"+before.residue, after.api+"\n"+after.tables+"\n"+after.published+"\n"+after.residue)
 					fails = append(fails, c03Fail{what: "op " + strconv.Itoa(g) + " (" + strings.SplitN(op, ":", 2)[0] + ") failed at crossing " + strconv.Itoa(n) + " [" + kind + "] with " + out + " but left a trace in: " + d + " " + detail, kf: kf})
 					before = after // report each leak once
@@ -233,74 +230,6 @@ func c03Bucket(n int) string {
 		return "50-199"
 	}
 	return "200+"
-}
-
-// known finding: rollback hooks run in registration order; a freshly written part that was deduplicated away in
-// the same transaction (PutPart id, then DeletePart id) is resurrected as an orphan part file when the rollback
-// happens after both pre-commit hooks ran.  Predicate: the only difference is one more published part file that
-// no table references, and the fault was at/after the pre-commit phase.
-func c03ResidueKf(kind string, before, after c03Snap) string {
-	if kind != "commit" && kind != "pre" && kind != "pre.tmp" {
-		return ""
-	}
-	if before.residue != after.residue {
-		return ""
-	}
-	bl := map[string]bool{}
-	for _, l := range strings.Split(before.published, "\n") {
-		bl[l] = true
-	}
-	extra := 0
-	for _, l := range strings.Split(after.published, "\n") {
-		if !bl[l] {
-			extra++
-		}
-	}
-	if extra >= 1 && len(strings.Split(after.published, "\n")) == len(strings.Split(before.published, "\n"))+extra-boolInt(before.published == "") {
-		return "C03-rollback-order-orphan"
-	}
-	return ""
-}
-
-// content written by a token ("" = none); the fault prefix is ignored
-func c03TokContent(tok string) (string, bool) {
-	if k := strings.Index(tok, "!"); k >= 0 {
-		tok = tok[k+1:]
-	}
-	f := strings.Split(tok, ":")
-	switch f[0] {
-	case "put", "app":
-		if len(f) >= 4 {
-			return f[3], true
-		}
-	case "up":
-		if len(f) >= 6 {
-			return f[5], true
-		}
-	}
-	return "", false
-}
-
-// input-only part of the known-finding predicate: op g writes bytes that an earlier op of the line also wrote
-// (a dedup hit is possible: PutPart of a fresh id followed by DeletePart of the same id in one transaction)
-func c03DupContent(toks []string, g int) bool {
-	c, ok := c03TokContent(toks[g])
-	if !ok {
-		return false
-	}
-	for _, t := range toks[:g] {
-		if d, ok := c03TokContent(t); ok && d == c {
-			return true
-		}
-	}
-	return false
-}
-
-func boolInt(b bool) int {
-	if b {
-		return 1
-	}
-	return 0
 }
 
 func (p *c03Prop) Gen(r *Rng, tier string, n int) []string {
